@@ -315,3 +315,100 @@ def rule_promotion(rep, fb, floor=200):
     r.count("pairs", len(names) ** 2)
     r.count("embedded_lattice_vs_numpy_disagreements", disagree_np)
     return r.done()
+
+
+class CEval:
+    """interpreter for small scalar C helpers (if / assignment through *p / arithmetic / comparisons) on concrete integers"""
+
+    def __init__(self, env):
+        self.env = env
+
+    def lv(self, e):
+        if e[0] == "var":
+            return e[1]
+        if e[0] == "idx" and e[1][0] == "var" and cexpr(e[2]) == ("const", 0):
+            return e[1][1]
+        raise KeyError("lvalue " + unparse(e)[:30])
+
+    def ex(self, e):
+        h = e[0]
+        if h == "const":
+            return int(e[1]) if isinstance(e[1], bool) else e[1]
+        if h == "var":
+            return self.env[e[1]]
+        if h == "idx":
+            return self.env[self.lv(e)]
+        if h in ("cast", "narrow"):
+            return self.ex(e[3])
+        if h == "un":
+            v = self.ex(e[2])
+            return (not v) if e[1] == "!" else (-v if e[1] == "-" else ~v)
+        if h == "bin":
+            op = e[1]
+            if op == "&&":
+                return bool(self.ex(e[2])) and bool(self.ex(e[3]))
+            if op == "||":
+                return bool(self.ex(e[2])) or bool(self.ex(e[3]))
+            a, b = self.ex(e[2]), self.ex(e[3])
+            return {"+": lambda: a + b, "-": lambda: a - b, "*": lambda: a * b, "<": lambda: a < b, "<=": lambda: a <= b, ">": lambda: a > b,
+                    ">=": lambda: a >= b, "==": lambda: a == b, "!=": lambda: a != b}[op]()
+        if h == "cond":
+            return self.ex(e[2]) if self.ex(e[1]) else self.ex(e[3])
+        raise KeyError(unparse(e)[:40])
+
+    def run(self, stmts):
+        for s in stmts:
+            h = s[0]
+            if h == "if":
+                self.run(s[2] if self.ex(s[1]) else s[3])
+            elif h == "assign":
+                self.env[self.lv(s[1])] = self.ex(s[2])
+            elif h == "aug":
+                k = self.lv(s[2])
+                v = self.ex(s[3])
+                self.env[k] = self.env[k] + v if s[1] == "+" else (self.env[k] - v if s[1] == "-" else self.env[k] * v)
+            elif h == "decl":
+                if s[3] is not None:
+                    self.env[s[1]] = self.ex(s[3])
+            elif h == "return":
+                return
+            elif h == "expr":
+                pass
+            else:
+                raise KeyError("statement " + h)
+
+
+def rule_rangeslice(rep, fb, floor=1000):
+    r = rep.rule("FINTAB.rangeslice", "awkward_regularize_rangeslice, interpreted on every (length 0..5) x (start absent or -8..8) x (stop absent or -8..8) x (step sign), selects exactly the positions Python's "
+                 "slice(start, stop, +-1).indices(length) selects (the function is piecewise linear with breakpoints at -1, 0, length-1, length, so these lengths cover every ordering of its comparisons)", floor=floor)
+    f = fb.kernel_pattern("awkward_regularize_rangeslice")
+    if f is None:
+        raise AnalysisError("awkward_regularize_rangeslice not found in src/cpu-kernels")
+    where = "%s:%d" % (f["file"], f["line"])
+    vals = [None] + list(range(-8, 9))
+    bad = 0
+    n = 0
+    for length in range(0, 6):
+        for posstep in (True, False):
+            step = 1 if posstep else -1
+            for a in vals:
+                for b in vals:
+                    env = {"start": 0 if a is None else a, "stop": 0 if b is None else b, "posstep": int(posstep), "hasstart": int(a is not None), "hasstop": int(b is not None), "length": length}
+                    try:
+                        CEval(env).run(f["body"])
+                    except KeyError as e:
+                        raise AnalysisError("cannot interpret awkward_regularize_rangeslice: %s" % e)
+                    got = list(range(env["start"], env["stop"], step))
+                    want = list(range(*slice(a, b, step).indices(length)))
+                    n += 1
+                    ok = got == want and all(0 <= i < length for i in got)
+                    if not ok:
+                        bad += 1
+                        if bad <= 3:
+                            r.fail("slice(%s,%s,%d)@len%d" % (a, b, step, length), where, "regularize_rangeslice(start=%s, stop=%s, step=%+d, length=%d) selects %s but Python selects %s" % (a, b, step, length, got, want))
+                    else:
+                        r.ok("slice(%s,%s,%d)@len%d" % (a, b, step, length), None)
+    if bad > 3:
+        r.fail("more", where, "%d further range/length combinations disagree with Python's slice semantics" % (bad - 3))
+    r.count("combinations", n)
+    return r.done()
